@@ -59,6 +59,27 @@ def gen_cases(rng, tier):
                       "bmin": [bmin.numerator, bmin.denominator], "bx": [(bmin + 4).numerator, (bmin + 4).denominator],
                       "by": [(bmin + 5).numerator, (bmin + 5).denominator], "want_grid": True, "float": False,
                       "_outl": outl, "_nogo": nogo})
+    # non-convex lots that contain the four corners of their bounding rectangle: a notch cut into one side (U / C shapes), an inner corner (L)
+    for k in range(3 if tier == "quick" else 12):
+        W, H = rng.choice([(40, 30), (30, 30), (36, 24)])
+        a, b = sorted(rng.sample(range(W // 4, 3 * W // 4 + 1), 2))
+        if b - a < 6:
+            b = min(W - 4, a + 8)
+        d = rng.randrange(H // 3, 2 * H // 3)
+        shape = k % 3
+        if shape == 0:      # notch from the top
+            o = [(0, 0), (W, 0), (W, H), (b, H), (b, H - d), (a, H - d), (a, H), (0, H)]
+        elif shape == 1:    # notch from the right
+            lo_, hi_ = H // 3, 2 * H // 3
+            o = [(0, 0), (W, 0), (W, lo_), (W - d, lo_), (W - d, hi_), (W, hi_), (W, H), (0, H)]
+        else:               # two notches: top and bottom
+            o = [(0, 0), (a, 0), (a, d // 2), (b, d // 2), (b, 0), (W, 0), (W, H), (b, H), (b, H - d // 2), (a, H - d // 2), (a, H), (0, H)]
+        o = [(F(x), F(y)) for x, y in o]
+        if rng.random() < 0.5:
+            o = list(reversed(o))
+        bmin = F(rng.randrange(12, 20), 4)
+        cases.append({"outlines": [[v4(v) for v in o]], "nogo": [], "bmin": [bmin.numerator, bmin.denominator], "bx": [(bmin + 4).numerator, (bmin + 4).denominator],
+                      "by": [(bmin + 5).numerator, (bmin + 5).denominator], "want_grid": True, "float": False, "_outl": [o], "_nogo": []})
     return cases
 
 
